@@ -276,6 +276,10 @@ type child struct {
 	parkCollected int  // of these: reports already printed
 	parkedCh      chan parkedRep
 	wedged        bool // a wait has expired: the verdict of this case is settled, later waits are short
+
+	shortStop bool       // `stoptimeout short`: held work that ignores the module context outlives the stop timeout
+	tmoMu     sync.Mutex // modules whose stopAllTasks left its wait through the timeout branch since the last lifecycle op
+	tmo       []string
 }
 
 const (
@@ -286,6 +290,7 @@ const (
 	lockTimeout         = 8 * time.Second  // GetLastReportedError takes reportingLock, which a blocked Report() holds
 	settleTimeout       = 10 * time.Second
 	stopTimeout         = 12 * time.Second // modules' own wait for workers when stopping (default 1 min)
+	shortStopTimeout    = 1500 * time.Millisecond // `stoptimeout short`: long enough for the stop routine and the work that ends at the cancellation, also on a loaded machine
 	slowStop            = 6 * time.Second  // a Shutdown slower than this waited for work that never finished
 )
 
@@ -307,6 +312,22 @@ func childMain() {
 		c.resp.Flush()
 	}
 	os.Exit(0)
+}
+
+// tmoStr: with `stoptimeout short`, the modules whose stop ended by the stop timeout since the last lifecycle op.
+func (c *child) tmoStr() string {
+	if !c.shortStop {
+		return ""
+	}
+	c.tmoMu.Lock()
+	names := append([]string{}, c.tmo...)
+	c.tmo = nil
+	c.tmoMu.Unlock()
+	if len(names) == 0 {
+		return " tmo=-"
+	}
+	sort.Strings(names)
+	return " tmo=" + strings.Join(names, ",")
 }
 
 func (c *child) mod(name string) *modDecl {
@@ -748,6 +769,25 @@ func (c *child) do(line string) string {
 		}
 		return "ok"
 
+	case "stoptimeout": // stoptimeout short: the modules' stop timeout becomes short; must precede start
+		if len(f) != 2 || f[1] != "short" || c.started || c.apiMode || c.shortStop {
+			return "bad-op"
+		}
+		c.shortStop = true
+		modules.VerifC06SetStopTimeout(shortStopTimeout)
+		// which modules leave the wait of stopAllTasks through its timeout branch (hook point of the package, tag verif)
+		modules.VerifSetSink(func(point string, args ...any) {
+			if point != "ev:sTimeout" || len(args) == 0 {
+				return
+			}
+			if name, ok := args[0].(string); ok {
+				c.tmoMu.Lock()
+				c.tmo = append(c.tmo, name)
+				c.tmoMu.Unlock()
+			}
+		})
+		return "ok"
+
 	case "enable", "disable":
 		if len(f) != 2 || c.mod(f[1]) == nil || !c.mgmt {
 			return "bad-op"
@@ -809,7 +849,7 @@ func (c *child) do(line string) string {
 		runsBefore := c.snapshotRuns()
 		err := modules.ManageModules()
 		c.waitCtrlIdle()
-		return fmt.Sprintf("manage ret=%s reps=%s st=%s ch=%d", ctrlRetStr(err), c.collapseRelaunched(c.drainSorted(), runsBefore), c.statuses(), c.chLen())
+		return fmt.Sprintf("manage ret=%s reps=%s st=%s ch=%d%s", ctrlRetStr(err), c.collapseRelaunched(c.drainSorted(), runsBefore), c.statuses(), c.chLen(), c.tmoStr())
 
 	case "shutdown":
 		if len(f) != 1 || !c.started {
@@ -817,7 +857,7 @@ func (c *child) do(line string) string {
 		}
 		t0 := time.Now()
 		for _, it := range c.items {
-			if it.held && !it.onstop {
+			if it.held && !it.onstop && !c.shortStop {
 				c.down = true
 				return "shutdown-with-held-work"
 			}
@@ -841,7 +881,7 @@ func (c *child) do(line string) string {
 		if time.Since(t0) > slowStop {
 			slow = "yes"
 		}
-		return fmt.Sprintf("shutdown ret=%s reps=%s slow=%s st=%s ch=%d", ctrlRetStr(err), c.drainSorted(), slow, c.statuses(), c.chLen())
+		return fmt.Sprintf("shutdown ret=%s reps=%s slow=%s st=%s ch=%d%s", ctrlRetStr(err), c.drainSorted(), slow, c.statuses(), c.chLen(), c.tmoStr())
 
 	case "status":
 		if len(f) != 1 {
